@@ -4,6 +4,7 @@ From Verif Require Import Base.Prelude Base.Str Interp.Sexp Interp.RunUnits Inte
 From Verif Require Interp.RunStep Interp.RunFootprint.
 From Verif Require Import Interp.RunCompat Interp.RunLink.
 From Verif Require Import Interp.RunATPClient.
+From Verif Require Import Interp.RunAtpsrv Interp.RunAtpxp.
 Open Scope string_scope.
 
 Definition run_case (x : sexp) : sexp :=
@@ -19,6 +20,8 @@ Definition run_case (x : sexp) : sexp :=
         else if String.eqb fam "c15" then run_c15_case payload
         else if String.eqb fam "c14" then run_c14_case payload
         else if String.eqb fam "atpclient" then run_atpclient_case payload
+        else if String.eqb fam "atpsrv" then run_atpsrv_case payload
+        else if String.eqb fam "c05transparent" then run_atpxp_case payload
         else bad "unknown family" in
       Ls [At "obs"; id; r]
   | _ => bad "not a case"
